@@ -1,12 +1,15 @@
 // REPLAY adapter for unit tcp_close_routes (shutdownDrain): builds the scenario found by the bounded SEARCH harness on the REAL TcpEngine
 // (constructed without start(); sessions, fd tags, listeners and queued commands placed by hand with -fno-access-control; epoll_ctl / close /
 // SSL_shutdown / SSL_free interposed) and evaluates the clauses natively.
+// PRE = number of connect() calls issued BEFORE shutdownDrain (to a live loopback listener created here): their Connect commands are in the
+//       queue when the drain starts, so its own process() must execute them and the close loop must then close the new sessions.
 // Inputs: NS sessions (ids 11.., fds 101..), SSLMASK, NL listeners (fd 1001), NCONN queued Connect commands (ids 21..), HASCB, W (witness; unused here: all ids are checked)
 #include "iora/network/detail/tcp_engine.hpp"
 #include "replay_io.h"
 #include <sys/epoll.h>
 #include <sys/syscall.h>
 #include <map>
+#include <arpa/inet.h>
 using namespace iora::network;
 static std::map<int, int> closes_of_fd, dels_of_fd; static unsigned shut = 0, freed = 0;
 // The commands must arrive AFTER shutdownDrain's own process() call (as they do when another thread - or a close callback - calls
@@ -43,6 +46,13 @@ int main(int argc, char **argv) {
     eng._listeners.emplace(l->id, std::move(l));
   }
   g_eng = &eng; g_inject = NCONN;
+  size_t PRE = in.count("PRE") ? U("PRE") : 0; if (PRE > 2) PRE = 2;
+  std::vector<SessionId> preIds; int lfd = -1;
+  if (PRE) {
+    lfd = ::socket(AF_INET, SOCK_STREAM, 0); sockaddr_in a{}; a.sin_family = AF_INET; a.sin_port = 0; inet_pton(AF_INET, "127.0.0.1", &a.sin_addr);
+    socklen_t al = sizeof a; if (::bind(lfd, (sockaddr *)&a, sizeof a) != 0 || ::listen(lfd, 8) != 0 || ::getsockname(lfd, (sockaddr *)&a, &al) != 0) { printf("REPLAY-SKIP: no loopback listener\n"); return 0; }
+    for (size_t i = 0; i < PRE; i++) { auto r = eng.connect("127.0.0.1", ntohs(a.sin_port), TlsMode::None); if (r.isOk()) preIds.push_back(r.value()); }   // ids now held by the application
+  }
   eng._atomicStats.sessionsCurrent = NS;
   std::string msgs; auto bad = [&](const std::string &m) { msgs += (msgs.empty() ? "" : " || ") + m; };
   eng.shutdownDrain();
@@ -50,8 +60,10 @@ int main(int argc, char **argv) {
     if (closeCount[11 + i] != (HASCB ? 1 : 0)) bad("SD-A session " + std::to_string(11 + i) + " got " + std::to_string(closeCount[11 + i]) + " close notifications");
     if (closes_of_fd[101 + (int)i] != 1 || dels_of_fd[101 + (int)i] != 1) bad("SD-D fd of session " + std::to_string(11 + i) + " closed/deregistered a wrong number of times");
   }
-  if (!eng._sessions.empty()) bad("SD-B session table not empty");
-  if (eng._atomicStats.sessionsCurrent.load() != 0 || eng._atomicStats.closed.load() != NS) bad("SD-C gauge / closed counter");
+  for (auto sid : preIds) if (HASCB && closeCount[sid] != 1) bad("SD-O/SD-A id " + std::to_string(sid) + " was returned by connect() before the drain and got " + std::to_string(closeCount[sid]) + " close notifications");
+  if (!eng._sessions.empty()) bad("SD-B session table not empty: " + std::to_string(eng._sessions.size()) + " session(s) created after the close loop");
+  if (eng._atomicStats.sessionsCurrent.load() != 0) bad("SD-C gauge of open sessions is " + std::to_string(eng._atomicStats.sessionsCurrent.load()) + " after the drain");
+  if (preIds.empty() && eng._atomicStats.closed.load() != NS) bad("SD-C closed counter");
   if (shut != sslOpen || freed != sslOpen) bad("SD-D SSL_shutdown / SSL_free count");
   if (!eng._fdTags.empty()) bad("SD-1 " + std::to_string(eng._fdTags.size()) + " fd tag(s) left behind, pointing to destroyed sessions (stale routing after start(); see demo_SD1.cpp)");
   if (HASCB && g_injected) for (size_t i = 0; i < NCONN; i++) if (closeCount[21 + i] != 1) bad("SD-2 id " + std::to_string(21 + i) + " was returned by connect() and got " + std::to_string(closeCount[21 + i]) + " close notifications (see demo_SD2.cpp)");
